@@ -139,6 +139,7 @@ def cmdAddr : P String := do
 inductive ROpTok where
   | register (n d : Bytes) | listen | open_ | close | shutdown
   | rebind                         -- a second Bind while serving (refused): no effect on the state
+  | openfailed                     -- a client could not connect although the history has the service serving
   | info | desc (n : Bytes)       -- queries in the middle of a history: no effect on the state
 
 def regOpP : P ROpTok := do
@@ -150,6 +151,7 @@ def regOpP : P ROpTok := do
   | "close" => pure .close
   | "shutdown" => pure .shutdown
   | "rebind" => pure .rebind
+  | "openfailed" => pure .openfailed
   | "info" => pure .info
   | "desc" => do let n ← bytes; pure (.desc n)
   | _ => throw s!"bad reg op {k}"
@@ -162,6 +164,7 @@ def ROpTok.toOp : ROpTok → Option RegOp
   | .shutdown => some .shutdownCompletes
   | .info => none
   | .rebind => none
+  | .openfailed => none
   | .desc _ => none
 
 def regResStr : RegResult → String
@@ -214,6 +217,9 @@ def cmdReg : P String := do
           | .invalidParameter p => k == "invalid" && t == p
         let (sf, es, obs, bad) ← walk s os
         pure (sf, es, obs, if good then bad else some "description-in-mid-history-differs")
+      | .openfailed =>
+        let (sf, es, obs, _) ← walk s os
+        pure (sf, es, obs, some "connection-refused-while-the-history-has-the-service-serving")
       | other =>
         let s' := match other.toOp with
           | some op => (s.step op).1
